@@ -424,6 +424,14 @@ MUTANTS = [
     m('C13-legacy-job-key-dropped', 'C13', ['RA'],
       'mistral/services/legacy_scheduler.py',
       "            key=job.key,\n", ""),
+    m('C07-tail-reruns-started-items', 'C07', ['R8'], E + 'tasks.py',
+      "                indices += [\n"
+      "                    i for i in range(max(candidates) + 1, count)\n"
+      "                    if i not in started\n                ]",
+      "                indices += list(range(max(candidates) + 1, count))"),
+    m('C07-tail-skips-accepted-only', 'C07', ['R8'], E + 'tasks.py',
+      "                started = set(_get_indexes(self.task_ex.executions))",
+      "                started = set(accepted)"),
     # ---------------------------------------------------------------- C08
     m('C08-retry-off-by-one', 'C08', ['R1'], E + 'policies.py',
       "        retries_remain = retry_no < self.count",
@@ -1003,6 +1011,13 @@ REFACTORS = [
       "                    additive_context=ctx\n                )",
       "                ctx = data_flow.evaluate_upstream_context(batch, "
       "ctx)"),
+    r('C07-ref-tail-set-difference', 'C07', E + 'tasks.py',
+      "                indices += [\n"
+      "                    i for i in range(max(candidates) + 1, count)\n"
+      "                    if i not in started\n                ]",
+      "                indices += sorted(\n"
+      "                    set(range(max(candidates) + 1, count)) - started\n"
+      "                )"),
     r('C04-ref-join-compare-mirrored', 'C04', W + 'direct_workflow.py',
       "            if runnings_tuple[0] >= spec_cardinality:",
       "            if spec_cardinality <= runnings_tuple[0]:"),
